@@ -1,2 +1,182 @@
+"""C10 Direction B: recorded list traces (random driver + repository tests) judged by TLC."""
+import json
+import os
+import random
+import subprocess
+
+import common
+from common import MachineryError, run_tlc, write_ndjson
+
+PID = "C10"
+# the two tests that open interactive figures time out (900 s) in this sandbox and are in the
+# baseline's always_fail list; everything else is traced
+DESELECT = ["tests/base/test_transforms3d.py::Test3D::test_plot",
+            "tests/test_pose2d.py::TestSE2::test_graphics"]
+
+
+def driver_events(n_traces, n_ops, seed):
+    """Random programs against the real API.  Does not consult the specification."""
+    os.environ["SPATIALMATH_PYTHON_VERIF"] = "1"
+    import smtrace
+    import elems
+    smtrace.install_list_wrappers()
+    rec = smtrace.Recorder()
+    rec.strict = True
+    junk = {}
+
+    def by_ident(obj):      # the driver knows which member it stored: decode it (tolerant)
+        out = []
+        for a in obj.data:
+            k = elems.ident(type(obj).__name__, a)
+            if not isinstance(k, int):
+                k = junk.setdefault((k, rec.idof(a)), -1 - len(junk))
+            out.append(k)
+        return out
+    rec.ids_of = by_ident
+    smtrace.REC = rec
+    rng = random.Random(seed)
+    classes = elems.MAIN8 + elems.EXTRA
+    nid = 1
+
+    def ri():
+        return rng.randint(-8, 8)
+
+    def rs():
+        return rng.choice([None, None] + list(range(-8, 9)))
+
+    for t in range(n_traces):
+        cname = classes[t % len(classes)]
+        nid = 1        # ids restart per trace: angle-coded members need 0.01*id < pi
+        n0 = rng.randint(0, 5)
+        x = elems.inject(cname, list(range(nid, nid + n0)))
+        nid += n0
+        for _ in range(n_ops):
+            op = rng.choice(["getitem", "slice", "append", "extend", "insert", "pop", "pop0", "del",
+                             "setitem", "reverse", "clear", "append_multi", "append_wrong",
+                             "insert_wrong", "setitem_multi", "extend_wrong", "getitem", "slice",
+                             "insert", "setitem", "append"])
+            try:
+                if op == "getitem":
+                    x[ri()]
+                elif op == "slice":
+                    st = rng.choice([None, -3, -2, -1, 1, 2, 3])
+                    x[slice(rs(), rs(), st)]
+                elif op == "append":
+                    x.append(elems.inject(cname, [nid])); nid += 1
+                elif op == "extend":
+                    k = rng.randint(0, 3)
+                    x.extend(elems.inject(cname, list(range(nid, nid + k)))); nid += k
+                elif op == "insert":
+                    x.insert(ri(), elems.inject(cname, [nid])); nid += 1
+                elif op == "pop":
+                    x.pop(ri())
+                elif op == "pop0":
+                    x.pop()
+                elif op == "del":
+                    del x[ri()]
+                elif op == "setitem":
+                    x[ri()] = elems.inject(cname, [nid]); nid += 1
+                elif op == "reverse":
+                    x.reverse()
+                elif op == "clear":
+                    if rng.random() < 0.3:
+                        x.clear()
+                elif op == "append_multi":
+                    x.append(elems.inject(cname, [nid, nid + 1]))
+                elif op == "append_wrong":
+                    x.append(elems.inject(elems.WRONG[cname], [nid]))
+                elif op == "insert_wrong":
+                    x.insert(ri(), elems.inject(elems.WRONG[cname], [nid]))
+                elif op == "setitem_multi":
+                    x[ri()] = elems.inject(cname, [nid, nid + 1])
+                elif op == "extend_wrong":
+                    x.extend(elems.inject(elems.WRONG[cname], [nid, nid + 1]))
+            except Exception:  # noqa: BLE001  the recorder has logged it
+                pass
+    rec.enabled = False
+    return rec.events
+
+
+def repo_test_events(out):
+    env = dict(os.environ)
+    env.update({"SPATIALMATH_PYTHON_VERIF": "1", "SMTRACE_OUT": out, "MPLBACKEND": "Agg",
+                "PYTHONPATH": os.path.join(common.VERIF, "harness"),
+                "PYTHONDONTWRITEBYTECODE": "1"})
+    tests = ["tests"]
+    for d in DESELECT:
+        tests += ["--deselect", d]
+    if os.path.exists(out):
+        os.remove(out)
+    p = subprocess.run([os.sys.executable, "-m", "pytest", "-q", "-p", "no:cacheprovider", "-p",
+                        "smtrace_plugin", "-W", "ignore", "--timeout=120"] + tests,
+                       cwd=common.REPO, env=env, stdout=subprocess.PIPE, stderr=subprocess.STDOUT,
+                       text=True, timeout=900)
+    if not os.path.exists(out):
+        raise MachineryError("repository tests produced no trace:\n" + p.stdout[-2000:])
+    return common.read_ndjson(out), p.stdout.strip().splitlines()[-1]
+
+
+def group(events):
+    """Per-object traces must be contiguous for the trace spec (stable sort by tid)."""
+    return sorted(events, key=lambda e: e["tid"])
+
+
+def judge(tag, events):
+    d = os.path.join(common.BUILD, tag)
+    os.makedirs(d, exist_ok=True)
+    tr = os.path.join(d, "trace.ndjson")
+    vd = os.path.join(d, "verdict.json")
+    if os.path.exists(vd):
+        os.remove(vd)
+    write_ndjson(tr, events)
+    r = run_tlc("SMListTrace", "SMListTrace", tag=tag, workers=1,
+                env={"TRACE": tr, "VERDICT": vd}, timeout=1200)
+    if not os.path.exists(vd):
+        raise MachineryError("trace validation wrote no verdict (%s)" % tag)
+    with open(vd) as f:
+        v = json.load(f)
+    if v["lines"] != len(events):
+        raise MachineryError("trace validation consumed %s of %d lines" % (v["lines"], len(events)))
+    return v["rejected"], r
+
+
+def feature(e):
+    c = e["call"]
+    n = len(e["pre"])
+    import c10
+    return c10.features(c, n)
+
+
 def run(j, tier):
-    return {"traces": 0}
+    thorough = tier == "thorough"
+    out = {}
+    # (1) independent random driver
+    ev = group(driver_events(600 if thorough else 130, 40, common.seed() + 7))
+    rej, r1 = judge("C10_trace_driver", ev)
+    ntr = len({e["tid"] for e in ev})
+    for k in rej:
+        e = ev[k - 1]
+        j.fail("%s|%s|%s;%s|trace-rejected" % (PID, e["call"]["op"], e["cls"], feature(e)),
+               {"kind": "trace-event", "source": "driver", "event": e})
+    for k, e in enumerate(ev):
+        if e["call"]["op"] != "begin" and (k + 1) not in rej:
+            j.ok((e["cls"], "trace", e["call"]["op"], feature(e)))
+    out["driver"] = {"traces": ntr, "events": len(ev), "rejected": len(rej), "tlc_states": r1.distinct}
+    j.sample({"trace-event": next(e for e in ev if e["call"]["op"] == "slice")})
+    # (2) the repository's own tests, traced
+    tev, summary = repo_test_events(os.path.join(common.BUILD, "C10_trace_repo", "events.ndjson")
+                                    if os.makedirs(os.path.join(common.BUILD, "C10_trace_repo"),
+                                                   exist_ok=True) is None else None)
+    tev = group(tev)
+    rej2, r2 = judge("C10_trace_repo", tev)
+    for k in rej2:
+        e = tev[k - 1]
+        j.fail("%s|%s|%s;%s|trace-rejected" % (PID, e["call"]["op"], e["cls"], feature(e)),
+               {"kind": "trace-event", "source": "repo-tests", "event": e})
+    for k, e in enumerate(tev):
+        if e["call"]["op"] != "begin" and (k + 1) not in rej2:
+            j.ok((e["cls"], "repo-trace", e["call"]["op"], feature(e)))
+    out["repo_tests"] = {"pytest": summary, "traces": len({e["tid"] for e in tev}),
+                         "events": len(tev), "rejected": len(rej2), "tlc_states": r2.distinct}
+    out["traces"] = ntr + len({e["tid"] for e in tev})
+    return out
